@@ -936,13 +936,13 @@ func init() {
 		{"cfgConnMissing", condKernel(c, "ValidateLogConfig", []string{"len(cfg.CtfeStorageConnectionString)"}, "cfgConnMissing", "(connLen : Int)",
 			Spec{Kind: "i64", Canon: true, ParamNames: []string{"cfg"}, Repl: map[string]string{"len(cfg.CtfeStorageConnectionString)": "connLen"}})},
 		{"backendNameEmpty", condKernel(c, "BuildLogBackendMap", []string{"len(", ".Name)"}, "backendNameEmpty", "(nameLen : Int)",
-			Spec{Kind: "i64", Canon: true, Repl: map[string]string{"….Name)": "nameLen"}})},
+			Spec{Kind: "i64", Canon: true, Repl: map[string]string{"len(….Name)": "nameLen"}})},
 		{"backendSpecEmpty", condKernel(c, "BuildLogBackendMap", []string{"len(", ".BackendSpec)"}, "backendSpecEmpty", "(specLen : Int)",
-			Spec{Kind: "i64", Canon: true, Repl: map[string]string{"….BackendSpec)": "specLen"}})},
+			Spec{Kind: "i64", Canon: true, Repl: map[string]string{"len(….BackendSpec)": "specLen"}})},
 		{"prefixEmpty", condKernel(c, "validateConfigs", []string{"len(", ".Prefix)"}, "prefixEmpty", "(prefixLen : Int)",
-			Spec{Kind: "i64", Canon: true, Repl: map[string]string{"….Prefix)": "prefixLen"}})},
+			Spec{Kind: "i64", Canon: true, Repl: map[string]string{"len(….Prefix)": "prefixLen"}})},
 		{"setupNeedsRoots", condKernel(in, "setUpLogInfo", []string{"len(", ".RootsPemFile)"}, "setupNeedsRoots", "(isMirror : Bool) (nRoots : Int)",
-			Spec{Kind: "i64", Canon: true, ParamNames: []string{"ctx", "opts"}, Repl: map[string]string{"opts.Validated.Config.IsMirror": "isMirror", "cfg.IsMirror": "isMirror", "….RootsPemFile)": "nRoots"}})},
+			Spec{Kind: "i64", Canon: true, ParamNames: []string{"ctx", "opts"}, Repl: map[string]string{"opts.Validated.Config.IsMirror": "isMirror", "cfg.IsMirror": "isMirror", "len(….RootsPemFile)": "nRoots"}})},
 		{"handlerPathsFor", handlerSetKernel(h, "types.go",
 			Spec{Kind: "i64", Repl: map[string]string{"li.instanceOpts.Validated.Config.IsReadonly": "isReadonly", "li.instanceOpts.Validated.Config.IsMirror": "isMirror"}})},
 		{"sthGetterSelect", getterSelect(h, Spec{Kind: "i64", Repl: map[string]string{"vCfg.FrozenSTH != nil": "frozenSet", "cfg.IsMirror": "isMirror"}})},
